@@ -21,6 +21,7 @@ func init() {
 		ID:      "C07",
 		Arch386: true,
 		Explanation: "T18 every call into go-sev-guest's certificate-table parser (CertTable.Unmarshal, ReportCertsToProto) is dominated by the nil edge of extractsev.CheckCertTable over bytes of the same input (F24). " +
+			"T19 every single-result type assertion in V is on a value whose dynamic type is fixed by construction (proto.Clone result, interface made in the function). " +
 			"T17 (= C09.R1/R4) the verification closure writes no state that outlives the call, so the outcome for an input does not depend on earlier inputs. " +
 			"Closure V = repo functions reachable from the relying-party entry points (verify.Endorsement[Proto], the SNP validator closures, extract.Attestation / Endorsement, extractsev.From*, SevPolicy, TdxPolicy, SevValidate, TdxValidate, Inspect*, MaskOptions.Mask, CryptoAgileLog.Unmarshal, SP800155Event3.UnmarshalFromBytes, exel.Locate). " +
 			"T1 nil-unsafe dereference: a pointer to a generated message obtained from a getter or a message field (possibly nil after unmarshalling untrusted bytes) reaches a direct field access only behind a != nil edge for the same access path (parameters are resolved at the call sites in V). " +
@@ -172,6 +173,67 @@ func runC07(c *Ctx) {
 	c.S.Count("closure_functions", len(fns))
 
 	c.nilDerefRule("T1", fns, V, rootSet, 5)
+	// T19: no panicking type assertion on a value whose dynamic type the input chooses. A single-result assertion
+	// x.(T) in the closure is allowed only where the dynamic type is fixed by construction: x is the result of
+	// proto.Clone (same type as its argument), of a conversion to the interface made in the same function, or a
+	// type-switch case (go/ssa makes those comma-ok). Anything else — the public key of a parsed certificate, a
+	// decoded event, a oneof — needs the comma-ok form.
+	{
+		nTA, nOK := 0, 0
+		for _, f := range fns {
+			for _, b := range f.Blocks {
+				for _, in := range b.Instrs {
+					ta, ok := in.(*ssa.TypeAssert)
+					if !ok {
+						continue
+					}
+					nTA++
+					if ta.CommaOk {
+						nOK++
+						continue
+					}
+					safe := ""
+					switch x := ta.X.(type) {
+					case *ssa.MakeInterface:
+						safe = "interface made in this function"
+					case *ssa.Call:
+						if cal := x.Call.StaticCallee(); cal != nil {
+							switch cal.String() {
+							case "google.golang.org/protobuf/proto.Clone":
+								safe = "proto.Clone returns its argument's type"
+							}
+							// a function of this repository that wraps a value of exactly the asserted type on every return
+							if safe == "" && load.FuncInRepo(cal) && cal.Blocks != nil {
+								all, n := true, 0
+								for _, cb := range cal.Blocks {
+									if ret, ok := cb.Instrs[len(cb.Instrs)-1].(*ssa.Return); ok && len(ret.Results) == 1 {
+										n++
+										mi, ok := ret.Results[0].(*ssa.MakeInterface)
+										if !ok || !types.Identical(mi.X.Type(), ta.AssertedType) {
+											all = false
+										}
+									}
+								}
+								if all && n > 0 {
+									safe = "the callee " + cal.Name() + " returns that type on every path"
+								}
+							}
+						}
+					}
+					if _, toIface := ta.AssertedType.Underlying().(*types.Interface); toIface && safe == "" {
+						// asserting to an interface type that the static type already implements cannot fail for non-nil values;
+						// left to T1 (nil) — only concrete targets are examined here
+						if types.Implements(ta.X.Type(), ta.AssertedType.Underlying().(*types.Interface)) {
+							safe = "static type implements the interface"
+						}
+					}
+					c.S.Check(safe != "", "T19", load.FuncName(f)+":assertion to "+types.TypeString(ta.AssertedType, func(p *types.Package) string { return p.Name() }), c.pos(ta.Pos()), "dynamic type fixed by construction ("+safe+")", "single-result type assertion on a value whose dynamic type the input decides ("+flow.Describe(ta.X)+"): a different type panics instead of being refused; use the comma-ok form")
+				}
+			}
+		}
+		c.S.Floor("T19", "type assertions in the relying-party closure", 3, nTA)
+		c.S.Note("T19: %d type assertions in V, %d comma-ok", nTA, nOK)
+	}
 	c.allocRule("T2", fns, V, nil)
 	pk := map[string]bool{}
 	for _, f := range fns {
